@@ -34,7 +34,7 @@ PROPS = {
     "C17": P(160000, 3000000, expect_reach=["c17.lin_decided"],
              assumptions=["each stream is freed / re-ranked only by the actor that created it; ABT_xstream_set_main_sched is applied to a joined stream or to the caller's own stream",
                           "rank histories <= 24 operations, search capped at 2e6 nodes"]),
-    "C18": P(16000, 300000, level="fault_enumeration", expect_reach=["c18.calls_failed_cleanly", "c18.routines_fully_enumerated", "c18.create_unit_failures", "c18.migration_handler_declined", "c18.migration_handler_moves"],
+    "C18": P(16000, 300000, level="fault_enumeration", expect_reach=["c18.calls_failed_cleanly", "c18.routines_fully_enumerated", "c18.create_unit_failures", "c18.migration_handler_declined", "c18.migration_handler_moves", "c18.keytable_race_failures"],
              assumptions=["the failing allocation is one issued by the calling thread inside the routine under test (allocations made by a newly started stream on its own thread are not failed)",
                           "a call may succeed despite the injected failure when a documented fall-back exists (other large-page type, non-strict stack guard); it must then be complete"]),
     "C19": P(160000, 3000000, expect_reach=["waitlist.timeout_unlink_head", "waitlist.timeout_unlink_middle", "waitlist.timeout_unlink_tail", "waitlist.deadline_passed_but_signalled", "c19.timeouts", "c19.signal_with_certain_waiter", "pool.far_waits_that_got_a_unit", "pool.empty_blocking_pops_checked"],
